@@ -6,91 +6,102 @@ import StorageModel.C16.Model
 namespace StorageModel.C16
 
 section
-variable {K N : Type} [DecidableEq K]
+variable {K N T : Type} [DecidableEq K]
 
 /-! ### equations -/
 
-theorem runOps_nil (k : Bool) (s : St K N) : runOps k s [] = (s, false) := rfl
+theorem runOps_nil (k : Bool) (s : St K N T) : runOps k s [] = (s, false) := rfl
 
-theorem runOps_cons_ok {k : Bool} {s : St K N} {op : Op K N} {ops : List (Op K N)} (h : (step s op).err = none) :
+theorem runOps_cons_ok {k : Bool} {s : St K N T} {op : Op K N T} {ops : List (Op K N T)} (h : (step s op).err = none) :
     runOps k s (op :: ops) = runOps k (step s op).st ops := by
   simp only [runOps, h]
 
-theorem runOps_cons_err {k : Bool} {s : St K N} {op : Op K N} {ops : List (Op K N)} {e : Err}
+theorem runOps_cons_err {k : Bool} {s : St K N T} {op : Op K N T} {ops : List (Op K N T)} {e : Err}
     (h : (step s op).err = some e) :
     runOps k s (op :: ops) =
       if k && e ≠ .sysCreate then runOps k (step s op).st ops else ((step s op).st, true) := by
   simp only [runOps, h]
 
-theorem commitTx_failed {s : St K N} {k : Bool} {ops : List (Op K N)} (h : (runOps k s ops).2 = true) :
+theorem commitTx_failed {s : St K N T} {k : Bool} {ops : List (Op K N T)} (h : (runOps k s ops).2 = true) :
     commitTx s (k, ops) = s := by
   simp only [commitTx, h, if_true]
 
-theorem commitTx_ok {s : St K N} {k : Bool} {ops : List (Op K N)} (h : (runOps k s ops).2 = false) :
+theorem commitTx_ok {s : St K N T} {k : Bool} {ops : List (Op K N T)} (h : (runOps k s ops).2 = false) :
     commitTx s (k, ops) = (runOps k s ops).1 := by
   simp [commitTx, h]
 
-theorem refused_eq (s : St K N) (id : K) (sys : Bool) :
+theorem refused_eq (s : St K N T) (id : K) (sys : Bool) :
     refused s id sys = match s.get id with
       | some e => e.isSystem && !sys
       | none => false := rfl
 
-theorem refused_sys (s : St K N) (id : K) : refused s id true = false := by
+theorem refused_sys (s : St K N T) (id : K) : refused s id true = false := by
   unfold refused; cases s.get id <;> simp
 
 /-! ### the operations, case by case -/
 
 /-- the entity bucket a successful (or refused) `Create` writes -/
-def newEnt (flag : Bool) (name : N) : Ent N := { flag := if flag then some true else none, name := name }
+def newEnt (v : Vals N T) : Ent N T := persist true v true true (blankEnt v.name)
 
-theorem newEnt_isSystem (flag : Bool) (name : N) : (newEnt flag name).isSystem = flag := by
-  cases flag <;> rfl
+theorem newEnt_isSystem (v : Vals N T) : (newEnt v : Ent N T).isSystem = v.flag := by
+  unfold newEnt persist setBaseValues createBaseValues blankEnt
+  cases hf : v.flag <;> cases hm : v.migrate <;> simp [Ent.isSystem]
 
-theorem step_create_blank (s : St K N) (sys : Bool) (id : K) (flag : Bool) (name : N) :
-    step s (.create sys id true flag name) = { st := s, err := some .blank } := by
+/-- **`UpdateBaseValues` never writes the flag**, whatever the entity carries (IsSystem, Migrate,
+    timestamps, tags) and whatever the checker lets through -/
+theorem persist_update_flag (v : Vals N T) (sn st : Bool) (e : Ent N T) : (persist false v sn st e).flag = e.flag := by
+  unfold persist setBaseValues updateBaseValues
+  cases sn <;> simp
+
+theorem persist_update_isSystem (v : Vals N T) (sn st : Bool) (e : Ent N T) :
+    (persist false v sn st e).isSystem = e.isSystem := by
+  unfold Ent.isSystem; rw [persist_update_flag]
+
+theorem step_create_blank (s : St K N T) (sys : Bool) (id : K) (v : Vals N T) :
+    step s (.create sys id true v) = { st := s, err := some .blank } := by
   simp [step]
 
-theorem step_create_exists {s : St K N} {id : K} {e : Ent N} (hg : s.get id = some e) (sys flag : Bool) (name : N) :
-    step s (.create sys id false flag name) = { st := s, err := some .exists } := by
+theorem step_create_exists {s : St K N T} {id : K} {e : Ent N T} (hg : s.get id = some e) (sys : Bool) (v : Vals N T) :
+    step s (.create sys id false v) = { st := s, err := some .exists } := by
   simp [step, hg]
 
-theorem step_create_new {s : St K N} {id : K} (hg : s.get id = none) (sys flag : Bool) (name : N) :
-    step s (.create sys id false flag name) =
-      if flag && !sys then { st := s.put id (newEnt flag name), err := some .sysCreate }
-      else { st := s.put id (newEnt flag name) } := by
-  have hr : refused (s.put id (newEnt flag name)) id sys = (flag && !sys) := by
+theorem step_create_new {s : St K N T} {id : K} (hg : s.get id = none) (sys : Bool) (v : Vals N T) :
+    step s (.create sys id false v) =
+      if v.flag && !sys then { st := s.put id (newEnt v), err := some .sysCreate }
+      else { st := s.put id (newEnt v) } := by
+  have hr : refused (s.put id (newEnt v)) id sys = (v.flag && !sys) := by
     rw [refused_eq, Map.get_put]; simp only [if_true]; rw [newEnt_isSystem]
   simp only [step, hg, Bool.false_eq_true, if_false]
   unfold newEnt at hr ⊢
   rw [hr]
 
-theorem step_update_missing {s : St K N} {id : K} (hg : s.get id = none) (sys flag : Bool) (name : N) (sn : Bool) :
-    step s (.update sys id flag name sn) = { st := s, err := some .notFound } := by
+theorem step_update_missing {s : St K N T} {id : K} (hg : s.get id = none) (sys : Bool) (v : Vals N T) (sn st : Bool) :
+    step s (.update sys id v sn st) = { st := s, err := some .notFound } := by
   simp [step, hg]
 
-theorem step_update_found {s : St K N} {id : K} {e : Ent N} (hg : s.get id = some e) (sys flag : Bool) (name : N)
-    (sn : Bool) :
-    step s (.update sys id flag name sn) =
+theorem step_update_found {s : St K N T} {id : K} {e : Ent N T} (hg : s.get id = some e) (sys : Bool) (v : Vals N T)
+    (sn st : Bool) :
+    step s (.update sys id v sn st) =
       if e.isSystem && !sys then { st := s, err := some .sysUpdate }
-      else { st := if sn then s.put id { e with name := name } else s } := by
+      else { st := s.put id (persist false v sn st e) } := by
   have hr : refused s id sys = (e.isSystem && !sys) := by rw [refused_eq, hg]
   simp only [step, hg]; rw [hr]
 
-theorem step_delete_missing {s : St K N} {id : K} (hg : s.get id = none) (sys : Bool) :
+theorem step_delete_missing {s : St K N T} {id : K} (hg : s.get id = none) (sys : Bool) :
     step s (.delete sys id) = { st := s, err := some .notFound } := by
   simp [step, hg]
 
-theorem step_delete_found {s : St K N} {id : K} {e : Ent N} (hg : s.get id = some e) (sys : Bool) :
+theorem step_delete_found {s : St K N T} {id : K} {e : Ent N T} (hg : s.get id = some e) (sys : Bool) :
     step s (.delete sys id) =
       if e.isSystem && !sys then { st := s, err := some .sysDelete } else { st := s.del id } := by
   have hr : refused s id sys = (e.isSystem && !sys) := by rw [refused_eq, hg]
   simp only [step, hg]; rw [hr]
 
 /-- every failure except a refused create leaves even the uncommitted state untouched -/
-theorem step_err_state {s : St K N} {op : Op K N} {e : Err} (h : (step s op).err = some e) (hne : e ≠ .sysCreate) :
+theorem step_err_state {s : St K N T} {op : Op K N T} {e : Err} (h : (step s op).err = some e) (hne : e ≠ .sysCreate) :
     (step s op).st = s := by
   cases op with
-  | create sys id blank flag name =>
+  | create sys id blank v =>
     cases blank with
     | true => rw [step_create_blank]
     | false =>
@@ -98,10 +109,10 @@ theorem step_err_state {s : St K N} {op : Op K N} {e : Err} (h : (step s op).err
       | some e0 => rw [step_create_exists hg]
       | none =>
         rw [step_create_new hg] at h
-        cases hc : (flag && !sys) with
+        cases hc : (v.flag && !sys) with
         | true => rw [hc] at h; simp at h; exact absurd h.symm hne
         | false => rw [hc] at h; simp at h
-  | update sys id flag name setName =>
+  | update sys id v setName setTags =>
     cases hg : s.get id with
     | none => rw [step_update_missing hg]
     | some e0 =>
@@ -122,16 +133,16 @@ theorem step_err_state {s : St K N} {op : Op K N} {e : Err} (h : (step s op).err
 /-! ### ghost: the flag given when an existing entity was created -/
 
 /-- the IsSystem flag carried by the `Create` call of every entity that currently exists -/
-def bornStep (s : St K N) (g : Map K Bool) (op : Op K N) : Map K Bool :=
+def bornStep (s : St K N T) (g : Map K Bool) (op : Op K N T) : Map K Bool :=
   match (step s op).err with
   | some _ => g
   | none =>
     match op with
-    | .create _ id _ flag _ => g.put id flag
+    | .create _ id _ v => g.put id v.flag
     | .delete _ id => g.del id
     | _ => g
 
-def runOpsG (k : Bool) : St K N × Map K Bool → List (Op K N) → (St K N × Map K Bool) × Bool
+def runOpsG (k : Bool) : St K N T × Map K Bool → List (Op K N T) → (St K N T × Map K Bool) × Bool
   | sg, [] => (sg, false)
   | sg, op :: ops =>
     let o := step sg.1 op
@@ -139,19 +150,19 @@ def runOpsG (k : Bool) : St K N × Map K Bool → List (Op K N) → (St K N × M
     | none => runOpsG k (o.st, bornStep sg.1 sg.2 op) ops
     | some e => if k && e ≠ .sysCreate then runOpsG k (o.st, bornStep sg.1 sg.2 op) ops else ((o.st, sg.2), true)
 
-def commitTxG (sg : St K N × Map K Bool) (tx : Bool × List (Op K N)) : St K N × Map K Bool :=
+def commitTxG (sg : St K N T × Map K Bool) (tx : Bool × List (Op K N T)) : St K N T × Map K Bool :=
   let r := runOpsG tx.1 sg tx.2
   if r.2 then sg else r.1
 
-def runHistG (sg : St K N × Map K Bool) (txs : List (Bool × List (Op K N))) : St K N × Map K Bool :=
+def runHistG (sg : St K N T × Map K Bool) (txs : List (Bool × List (Op K N T))) : St K N T × Map K Bool :=
   txs.foldl commitTxG sg
 
-theorem runOpsG_cons_ok {k : Bool} {sg : St K N × Map K Bool} {op : Op K N} {ops : List (Op K N)}
+theorem runOpsG_cons_ok {k : Bool} {sg : St K N T × Map K Bool} {op : Op K N T} {ops : List (Op K N T)}
     (h : (step sg.1 op).err = none) :
     runOpsG k sg (op :: ops) = runOpsG k ((step sg.1 op).st, bornStep sg.1 sg.2 op) ops := by
   simp only [runOpsG, h]
 
-theorem runOpsG_cons_err {k : Bool} {sg : St K N × Map K Bool} {op : Op K N} {ops : List (Op K N)} {e : Err}
+theorem runOpsG_cons_err {k : Bool} {sg : St K N T × Map K Bool} {op : Op K N T} {ops : List (Op K N T)} {e : Err}
     (h : (step sg.1 op).err = some e) :
     runOpsG k sg (op :: ops) =
       if k && e ≠ .sysCreate then runOpsG k ((step sg.1 op).st, bornStep sg.1 sg.2 op) ops
@@ -159,7 +170,7 @@ theorem runOpsG_cons_err {k : Bool} {sg : St K N × Map K Bool} {op : Op K N} {o
   simp only [runOpsG, h]
 
 /-- the ghost run computes the same states as the plain run -/
-theorem runOpsG_fst (k : Bool) (sg : St K N × Map K Bool) (ops : List (Op K N)) :
+theorem runOpsG_fst (k : Bool) (sg : St K N T × Map K Bool) (ops : List (Op K N T)) :
     ((runOpsG k sg ops).1.1, (runOpsG k sg ops).2) = runOps k sg.1 ops := by
   induction ops generalizing sg with
   | nil => rfl
@@ -172,7 +183,7 @@ theorem runOpsG_fst (k : Bool) (sg : St K N × Map K Bool) (ops : List (Op K N))
       · exact ih _
       · rfl
 
-theorem commitTxG_fst (sg : St K N × Map K Bool) (tx : Bool × List (Op K N)) :
+theorem commitTxG_fst (sg : St K N T × Map K Bool) (tx : Bool × List (Op K N T)) :
     (commitTxG sg tx).1 = commitTx sg.1 tx := by
   have h := runOpsG_fst tx.1 sg tx.2
   unfold commitTxG commitTx
@@ -183,7 +194,7 @@ theorem commitTxG_fst (sg : St K N × Map K Bool) (tx : Bool × List (Op K N)) :
   · rfl
   · exact h2
 
-theorem runHistG_fst (sg : St K N × Map K Bool) (txs : List (Bool × List (Op K N))) :
+theorem runHistG_fst (sg : St K N T × Map K Bool) (txs : List (Bool × List (Op K N T))) :
     (runHistG sg txs).1 = runHist sg.1 txs := by
   induction txs generalizing sg with
   | nil => rfl
@@ -195,12 +206,12 @@ theorem runHistG_fst (sg : St K N × Map K Bool) (txs : List (Bool × List (Op K
     rw [this, commitTxG_fst]
 
 /-- the invariant: the stored flag (as read back) of every existing entity is the flag it was created with -/
-def FlagInv (sg : St K N × Map K Bool) : Prop :=
+def FlagInv (sg : St K N T × Map K Bool) : Prop :=
   ∀ id, (sg.1.get id).map Ent.isSystem = sg.2.get id
 
-theorem flagInv_nil : FlagInv (([] : St K N), ([] : Map K Bool)) := by intro id; rfl
+theorem flagInv_nil : FlagInv (([] : St K N T), ([] : Map K Bool)) := by intro id; rfl
 
-theorem step_flagInv {s : St K N} {g : Map K Bool} (h : FlagInv (s, g)) (op : Op K N) :
+theorem step_flagInv {s : St K N T} {g : Map K Bool} (h : FlagInv (s, g)) (op : Op K N T) :
     FlagInv ((step s op).st, bornStep s g op) ∨ (step s op).err = some .sysCreate := by
   cases he : (step s op).err with
   | some e =>
@@ -213,7 +224,7 @@ theorem step_flagInv {s : St K N} {g : Map K Bool} (h : FlagInv (s, g)) (op : Op
     left
     unfold bornStep; rw [he]
     cases op with
-    | create sys id blank flag name =>
+    | create sys id blank v =>
       simp only
       cases blank with
       | true => rw [step_create_blank] at he; simp at he
@@ -222,7 +233,7 @@ theorem step_flagInv {s : St K N} {g : Map K Bool} (h : FlagInv (s, g)) (op : Op
         | some e0 => rw [step_create_exists hg] at he; simp at he
         | none =>
           rw [step_create_new hg] at he ⊢
-          cases hc : (flag && !sys) with
+          cases hc : (v.flag && !sys) with
           | true => rw [hc] at he; simp at he
           | false =>
             simp only [Bool.false_eq_true, if_false]
@@ -232,7 +243,7 @@ theorem step_flagInv {s : St K N} {g : Map K Bool} (h : FlagInv (s, g)) (op : Op
             by_cases hx : id = x
             · simp [hx, newEnt_isSystem]
             · simp only [hx, if_false]; exact h x
-    | update sys id flag name setName =>
+    | update sys id v setName setTags =>
       simp only
       cases hg : s.get id with
       | none => rw [step_update_missing hg] at he; simp at he
@@ -242,18 +253,15 @@ theorem step_flagInv {s : St K N} {g : Map K Bool} (h : FlagInv (s, g)) (op : Op
         | true => rw [hc] at he; simp at he
         | false =>
           simp only [Bool.false_eq_true, if_false]
-          cases setName with
-          | false => exact h
-          | true =>
-            intro x
-            simp only [if_true]
-            rw [Map.get_put]
-            by_cases hx : id = x
-            · subst hx
-              have := h id
-              simp only [hg, Option.map] at this
-              simp only [if_true, Option.map]; rw [← this]; rfl
-            · simp only [hx, if_false]; exact h x
+          intro x
+          simp only
+          rw [Map.get_put]
+          by_cases hx : id = x
+          · subst hx
+            have := h id
+            simp only [hg, Option.map] at this
+            simp only [if_true, Option.map]; rw [← this, persist_update_isSystem]
+          · simp only [hx, if_false]; exact h x
     | delete sys id =>
       simp only
       cases hg : s.get id with
@@ -272,7 +280,7 @@ theorem step_flagInv {s : St K N} {g : Map K Bool} (h : FlagInv (s, g)) (op : Op
           · simp only [hx, if_false]; exact h x
     | read id => exact h
 
-theorem runOpsG_flagInv (k : Bool) {sg : St K N × Map K Bool} (h : FlagInv sg) (ops : List (Op K N))
+theorem runOpsG_flagInv (k : Bool) {sg : St K N T × Map K Bool} (h : FlagInv sg) (ops : List (Op K N T))
     (hok : (runOpsG k sg ops).2 = false) : FlagInv (runOpsG k sg ops).1 := by
   induction ops generalizing sg with
   | nil => exact h
@@ -293,14 +301,14 @@ theorem runOpsG_flagInv (k : Bool) {sg : St K N × Map K Bool} (h : FlagInv sg) 
         · rw [he] at h'; cases h'; simp at hk
       · rw [if_neg hk] at hok; simp at hok
 
-theorem commitTxG_flagInv {sg : St K N × Map K Bool} (h : FlagInv sg) (tx : Bool × List (Op K N)) :
+theorem commitTxG_flagInv {sg : St K N T × Map K Bool} (h : FlagInv sg) (tx : Bool × List (Op K N T)) :
     FlagInv (commitTxG sg tx) := by
   unfold commitTxG
   cases hf : (runOpsG tx.1 sg tx.2).2 with
   | true => simp only [hf, if_true]; exact h
   | false => simp only [hf, Bool.false_eq_true, if_false]; exact runOpsG_flagInv tx.1 h tx.2 hf
 
-theorem runHistG_flagInv {sg : St K N × Map K Bool} (h : FlagInv sg) (txs : List (Bool × List (Op K N))) :
+theorem runHistG_flagInv {sg : St K N T × Map K Bool} (h : FlagInv sg) (txs : List (Bool × List (Op K N T))) :
     FlagInv (runHistG sg txs) := by
   induction txs generalizing sg with
   | nil => exact h
@@ -309,11 +317,12 @@ theorem runHistG_flagInv {sg : St K N × Map K Bool} (h : FlagInv sg) (txs : Lis
 /-! ### the model refines the spec -/
 
 /-- abstraction: what the property can see of an entity -/
-def absEnt (e : Ent N) : Bool × N := (e.isSystem, e.name)
+def absEnt (e : Ent N T) : SEnt N T :=
+  { isSys := e.isSystem, name := e.name, tags := e.tags, created := e.created, updated := e.updated }
 
-def abs (s : St K N) : SSt K N := s.map fun p => (p.1, absEnt p.2)
+def abs (s : St K N T) : SSt K N T := s.map fun p => (p.1, absEnt p.2)
 
-theorem get_abs (s : St K N) (id : K) : (abs s).get id = (s.get id).map absEnt := by
+theorem get_abs (s : St K N T) (id : K) : (abs s).get id = (s.get id).map absEnt := by
   induction s with
   | nil => rfl
   | cons p s ih =>
@@ -323,7 +332,7 @@ theorem get_abs (s : St K N) (id : K) : (abs s).get id = (s.get id).map absEnt :
     · simp [h]
     · simp only [h, if_false]; exact ih
 
-theorem abs_del (s : St K N) (id : K) : abs (s.del id) = (abs s).del id := by
+theorem abs_del (s : St K N T) (id : K) : abs (s.del id) = (abs s).del id := by
   induction s with
   | nil => rfl
   | cons p s ih =>
@@ -333,20 +342,30 @@ theorem abs_del (s : St K N) (id : K) : abs (s.del id) = (abs s).del id := by
     · simp only [h, ne_eq, not_true_eq_false, decide_false]; exact ih
     · simp only [ne_eq, h, not_false_eq_true, decide_true, List.map_cons]; rw [ih]
 
-theorem abs_put (s : St K N) (id : K) (e : Ent N) : abs (s.put id e) = (abs s).put id (absEnt e) := by
+theorem abs_put (s : St K N T) (id : K) (e : Ent N T) : abs (s.put id e) = (abs s).put id (absEnt e) := by
   unfold Map.put
   simp only [abs, List.map_cons]
   have := abs_del s id
   simp only [abs] at this
   rw [this]
 
+theorem absEnt_new (v : Vals N T) :
+    absEnt (newEnt v : Ent N T) = { isSys := v.flag, name := v.name, tags := v.tags, created := if v.migrate then .given v.cAt else .now, updated := if v.migrate then .given v.uAt else .now } := by
+  unfold absEnt newEnt persist setBaseValues createBaseValues blankEnt
+  cases hf : v.flag <;> cases hm : v.migrate <;> simp [Ent.isSystem]
+
+theorem absEnt_update (v : Vals N T) (sn st : Bool) (e : Ent N T) :
+    absEnt (persist false v sn st e) = { isSys := e.isSystem, name := if sn then v.name else e.name, tags := if st then v.tags else e.tags, created := e.created, updated := .now } := by
+  unfold absEnt persist setBaseValues updateBaseValues Ent.isSystem
+  cases sn <;> simp
+
 /-- one operation: the model fails iff the spec fails, and a success lands in the spec's state -/
-theorem step_refines (s : St K N) (op : Op K N) :
+theorem step_refines (s : St K N T) (op : Op K N T) :
     match (step s op).err with
     | none => sstep (abs s) op = some (abs (step s op).st)
     | some _ => sstep (abs s) op = none := by
   cases op with
-  | create sys id blank flag name =>
+  | create sys id blank v =>
     cases blank with
     | true => rw [step_create_blank]; simp [sstep]
     | false =>
@@ -354,30 +373,31 @@ theorem step_refines (s : St K N) (op : Op K N) :
       | some e => rw [step_create_exists hg]; simp [sstep, get_abs, hg]
       | none =>
         rw [step_create_new hg]
-        cases hc : (flag && !sys) with
+        cases hc : (v.flag && !sys) with
         | true => simp [sstep, hc]
         | false =>
           simp only [Bool.false_eq_true, if_false, sstep, get_abs, hg, hc]
-          rw [abs_put]; simp only [absEnt, newEnt_isSystem]; rfl
-  | update sys id flag name setName =>
+          rw [abs_put, absEnt_new]; rfl
+  | update sys id v setName setTags =>
     cases hg : s.get id with
     | none => rw [step_update_missing hg]; simp [sstep, get_abs, hg]
     | some e =>
       rw [step_update_found hg]
+      have hi : (absEnt e).isSys = e.isSystem := rfl
       cases hc : (e.isSystem && !sys) with
-      | true => simp [sstep, get_abs, hg, absEnt, hc]
+      | true => simp [sstep, get_abs, hg, hi, hc]
       | false =>
-        cases setName with
-        | true => simp only [Bool.false_eq_true, if_false, if_true, sstep, get_abs, hg, Option.map_some, absEnt, hc]; rw [abs_put]; rfl
-        | false => simp [sstep, get_abs, hg, absEnt, hc]
+        simp only [Bool.false_eq_true, if_false, sstep, get_abs, hg, Option.map_some, hi, hc]
+        rw [abs_put, absEnt_update]; rfl
   | delete sys id =>
     cases hg : s.get id with
     | none => rw [step_delete_missing hg]; simp [sstep, get_abs, hg]
     | some e =>
       rw [step_delete_found hg]
+      have hi : (absEnt e).isSys = e.isSystem := rfl
       cases hc : (e.isSystem && !sys) with
-      | true => simp [sstep, get_abs, hg, absEnt, hc]
-      | false => simp only [Bool.false_eq_true, if_false, sstep, get_abs, hg, Option.map_some, absEnt, hc]; rw [abs_del]
+      | true => simp [sstep, get_abs, hg, hi, hc]
+      | false => simp only [Bool.false_eq_true, if_false, sstep, get_abs, hg, Option.map_some, hi, hc]; rw [abs_del]
   | read id => simp [step, sstep]
 
 end
